@@ -1,4 +1,4 @@
-\* BoundedBatchPool, repaired (FixF5, FixF6), all four close configurations: 2 producers x 2 Submit, QueueSize 2, 1 worker, batches of 2 with MaxWait.
+\* BoundedBatchPool as the code is (F6 fixed, F5 open): the three close configurations other than CancelRunningOnClose-only; 2 producers x 2 Submit, QueueSize 2, 1 worker, batches of 2 with MaxWait.
 SPECIFICATION Spec
 CONSTANTS
   NP = 2
@@ -7,9 +7,8 @@ CONSTANTS
   Workers = 1
   MaxItems = 2
   MaxWait = TRUE
-  CancelAcceptedSet = {TRUE, FALSE}
-  CancelRunningSet = {TRUE, FALSE}
-  FixF5 = TRUE
+  CloseModes <- ModesButF5
+  FixF5 = FALSE
   FixF6 = TRUE
 INVARIANTS TypeOK C37_AtMostOnce C37_RejectedNeverRuns C37_OnlyAdmittedRuns C37_CancelOnlyIfConfigured C37_CancelOnlyAfterClose C37_CloseWaits SlotsCoverQueue
 CHECK_DEADLOCK TRUE
